@@ -868,14 +868,22 @@ theorem admin_token_only_if (A : AColl) (used used' : List Str) (r : AdminReq) (
       (∃ san ∈ r.sans, A.bySubProv.get (san, pn) = some adm) ∧
       (adminsPrefix.isPrefixOf r.path = true → r.method ≠ GET → adm.super = true) := by
   unfold authorizeAdmin at h
-  by_cases h1 : r.parseOk = true <;> simp only [h1, Bool.not_true, Bool.not_false, if_true, if_false, Bool.false_eq_true] at h
-  swap; · simp at h
-  by_cases h2 : r.chainOk = true <;> simp only [h2, Bool.not_true, Bool.not_false, if_true, if_false, Bool.false_eq_true] at h
-  swap; · simp at h
-  by_cases h3 : r.digSig = true <;> simp only [h3, Bool.not_true, Bool.not_false, if_true, if_false, Bool.false_eq_true] at h
-  swap; · simp at h
-  by_cases h4 : r.sigOk = true <;> simp only [h4, Bool.not_true, Bool.not_false, if_true, if_false, Bool.false_eq_true] at h
-  swap; · simp at h
+  split at h
+  · simp at h
+  rename_i h1
+  split at h
+  · simp at h
+  rename_i h2
+  split at h
+  · simp at h
+  rename_i h3
+  split at h
+  · simp at h
+  rename_i h4
+  replace h1 : r.parseOk = true := by simpa using h1
+  replace h2 : r.chainOk = true := by simpa using h2
+  replace h3 : r.digSig = true := by simpa using h3
+  replace h4 : r.sigOk = true := by simpa using h4
   refine ⟨h1, h2, h3, h4, ?_⟩
   cases hp : r.prov with
   | none => simp [hp] at h
@@ -909,7 +917,7 @@ theorem admin_token_only_if (A : AColl) (used used' : List Str) (r : AdminReq) (
       subst ha
       refine ⟨?_, by simpa using htime, by simpa using haud, ?_, hsub, findAdmin_some hf, ?_⟩
       · intro k hk
-        simp only [hk] at hused hu
+        simp only [hk, reused, record] at hused hu
         exact ⟨by simpa using hused, hu.symm⟩
       · by_cases hi : r.iss = adminClientIssuer
         · exact .inl hi
@@ -920,6 +928,28 @@ theorem admin_token_only_if (A : AColl) (used used' : List Str) (r : AdminReq) (
         by_cases hs : a.super = true
         · exact hs
         · exact absurd ⟨hpre, hm, by simpa using hs⟩ hsuper
+
+
+/-- the converse: when every clause holds the request is authorized as that administrator, so a
+    refusal of the model means that one of the clauses of `admin_token_only_if` is false -/
+theorem admin_token_if (A : AColl) (used : List Str) (r : AdminReq) (adm : Adm) (pn : Str)
+    (h1 : r.parseOk = true) (h2 : r.chainOk = true) (h3 : r.digSig = true) (h4 : r.sigOk = true)
+    (hp : r.prov = some pn) (hu : reused used r.reuseKey = false) (ht : timeOk r = true)
+    (ha : matchesAud r.aud (audiencesFor r.dnsNames r.path) = true)
+    (hi : r.iss = adminClientIssuer ∨ r.iss = pn) (hs : r.sub ≠ [])
+    (hf : findAdmin A pn r.sans = some adm)
+    (hsup : adminsPrefix.isPrefixOf r.path = true → r.method ≠ GET → adm.super = true) :
+    authorizeAdmin A used r = (record used r.reuseKey, .ok adm) := by
+  unfold authorizeAdmin
+  have hi' : ¬(r.iss ≠ adminClientIssuer ∧ r.iss ≠ pn) := by
+    rintro ⟨a, b⟩; rcases hi with h | h
+    · exact a h
+    · exact b h
+  have hs' : ¬(adminsPrefix.isPrefixOf r.path = true ∧ r.method ≠ GET ∧ adm.super = false) := by
+    rintro ⟨a, b, c⟩
+    have := hsup a b
+    rw [this] at c; cases c
+  simp only [h1, h2, h3, h4, hp, hu, ht, ha, hf, Bool.not_true, Bool.false_eq_true, if_false, hi', hs, hs']
 
 /-- **only_super_changes_admins** — for *every* method string other than `GET` (no list of
     verbs), a request below `/admin/admins` is authorized only for a super administrator. -/
